@@ -268,8 +268,9 @@ def do_step(w, op):
         if i is None: return None
         x = P[i]; k = rng.randrange(len(x.N))
         shp = list(x.cores[k].shape)
-        shp[1] = rng.choice([1, 2, 3, 5])
-        if x.is_ttm: shp[2] = rng.choice([1, 2, 3])
+        if rng.random() < 0.5:                # half of the replacements keep the shape of the core (objects that are views of the old core - t(), slices, to_ttm, detach - must not move)
+            shp[1] = rng.choice([1, 2, 3, 5])
+            if x.is_ttm: shp[2] = rng.choice([1, 2, 3])
         x.set_core(k, torch.tensor(ttgen.rand_core(rng, tuple(shp)), dtype=x.cores[0].dtype))
         w.calls.append("KSetCore %d %d (%s)" % (i, k, cshape_coq(tuple(shp)))); return "set_core(%d,%d)" % (i, k), i
     if op == "set_core_neg":
